@@ -21,7 +21,9 @@ def _mk(H):
         def __init__(self, label):
             super().__init__(lambda: H.tags.span(label))
             self.label = label
-    return LRepr, LTfy
+    class Maybe:
+        """instances are valid children only if they were given a _repr_html_ of their own"""
+    return LRepr, LTfy, Maybe
 
 
 def num(v: str):
@@ -58,13 +60,20 @@ def conc(a, H, cls, salt=0, alias=None):
     if k == "dep":
         return H.HTMLDependency(v, "1.0")
     if k == "repr":
+        if salt % 3 == 1:
+            # an object that renders itself because THAT instance has a _repr_html_ (validity is a fact about the
+            # object, not about its class)
+            o = cls[2]()
+            o._repr_html_ = lambda v=v: f"<r>{v}</r>"
+            o.label = v
+            return o
         return cls[0](v)
     if k == "tfy":
         return cls[1](v)
     if k == "none":
         return None
     if k == "bad":
-        return [gamma.Bad(), {"a": 1}, b"bytes", {1, 2}, object][(salt + len(v)) % 5]
+        return [gamma.Bad(), {"a": 1}, b"bytes", {1, 2}, object, cls[2]()][(salt + len(v)) % 6]
     kids = [conc(c, H, cls, salt + i + 1) for i, c in enumerate(a["c"])]
     if k == "list":
         return kids
@@ -88,7 +97,7 @@ def proj(x, H, cls):
             out.append({"k": "tag", "v": str(e.attrs.get("id"))})
         elif isinstance(e, H.HTMLDependency):
             out.append({"k": "dep", "v": e.name})
-        elif isinstance(e, cls[0]):
+        elif isinstance(e, cls[0]) or (isinstance(e, cls[2]) and hasattr(e, "_repr_html_")):
             out.append({"k": "repr", "v": e.label})
         elif isinstance(e, cls[1]):
             out.append({"k": "tfy", "v": e.label})
@@ -144,9 +153,11 @@ def run_hist(hist, H, recvkind, salt):
             elif act == "Insert":
                 (holder if holder is not None else x).insert(op["i"], args[0])
             elif act == "IAdd":
-                x += args[0]
+                # += extends the list IN PLACE: done through a second name, the receiver itself must see it
+                alias_ = x
+                alias_ += args[0]
                 if holder is not None:
-                    holder.children = x
+                    x = holder.children
             elif act == "Add":
                 r = x + args[0]
                 res_is_list = type(r) is H.TagList
